@@ -55,10 +55,12 @@ def obligations(tier, kf):
                 for m in MUTANTS.get(fn, []):
                     obs.append(ob.mutant(m))
     for n in range(0, (3 if quick else 5) + 1):
-        obs.append(Ob('x_split_vs_runtime', {'N': n}, {0: 60, 1: 60, 2: 120, 3: 300, 4: 1200, 5: 4000}[n],
-                      desc='split vs MS runtime, |t|==%d' % n))
-    obs.append(Ob('x_split_vs_runtime', {'N': 2}, 120).twin())
-    obs.append(Ob('x_split_vs_runtime', {'N': 3}, 300).mutant('win_split_quote_ends_arg'))
+        for suf in (' z', 'z z'):
+            obs.append(Ob('x_split_vs_runtime', {'N': n, 'SUF': suf},
+                          {0: 60, 1: 60, 2: 120, 3: 300, 4: 1200, 5: 4000}[n],
+                          desc='split vs MS runtime, |t|==%d, followed by %r' % (n, suf)))
+    obs.append(Ob('x_split_vs_runtime', {'N': 2, 'SUF': ' z'}, 120).twin())
+    obs.append(Ob('x_split_vs_runtime', {'N': 3, 'SUF': 'z z'}, 300).mutant('win_split_quote_ends_arg'))
     pairs = [(0, 0), (1, 0), (0, 1), (1, 1)] + ([] if quick else [(2, 1), (1, 2), (2, 2)])
     for fn in ('j_join', 'p_jbos'):
         for n, m in pairs:
